@@ -829,7 +829,8 @@ class C20(World):
             ctx.fail("memory", cfg["fmt"] + "-" + kind, f"{label}: MemoryError {exc}")
         if res["peak"] > budget_mem(total):
             ctx.fail("memory", cfg["fmt"] + "-" + kind, f"{label}: tracemalloc peak {res['peak']} > budget {budget_mem(total)}")
-        if res.get("rss_delta", 0) > RSS_A + RSS_B * total and not foreign:
+        # what tracemalloc saw is judged by the tracemalloc budget above: here only the growth it did not see (allocations of C libraries)
+        if res.get("rss_delta", 0) - res.get("peak", 0) > RSS_A + RSS_B * total and not foreign:
             side = [2000, 5000, 8000][f.get("a", 0) % 3] if f.get("sub") == "glb_image_bomb" else 0
             fid2 = "C20-texture-decoded-when-scene-is-flattened"
             if side and route == "load_mesh" and ctx.is_known(fid2) and res["rss_delta"] <= RSS_A + 16 * side * side:
